@@ -207,6 +207,7 @@ func (l *LedgerProvider) rel(kind int, ptr unsafe.Pointer, reset func(), put fun
 		if !found {
 			t.Ev("nested-release-not-held", objName(kind), 0)
 		}
+		reset() // the tripwire: whatever the library still does with the object afterwards is recorded
 		put()
 		return
 	}
